@@ -99,7 +99,7 @@ def accTable : List (Nat × String) :=
     (Code.classlessStaticRoute.toNat, "ClasslessStaticRoute:Routes"),
     (Code.clientArch.toNat, "ClientArch:iana.Archs"),
     (Code.dns.toNat, "DNS:GetIPs"),
-    (Code.domainName.toNat, "DomainName:GetString"),
+    (Code.domainName.toNat, "DomainName:GetString+TrimRight"),
     (Code.domainSearch.toNat, "DomainSearch:rfc1035label.FromBytes"),
     (Code.hostName.toNat, "HostName:GetString+TrimRight"),
     (Code.ipAddressLeaseTime.toNat, "IPAddressLeaseTime:Duration"),
@@ -107,14 +107,14 @@ def accTable : List (Nat × String) :=
     (Code.renewalTime.toNat, "IPAddressRenewalTime:Duration"),
     (Code.ipv6OnlyPreferred.toNat, "IPv6OnlyPreferred:Duration"),
     (Code.maxMessageSize.toNat, "MaxMessageSize:GetUint16"),
-    (Code.message.toNat, "Message:GetString"),
+    (Code.message.toNat, "Message:GetString+TrimRight"),
     (Code.messageType.toNat, "MessageType:MessageType"),
     (Code.ntpServers.toNat, "NTPServers:GetIPs"),
     (Code.netBIOSNameServers.toNat, "NetBIOSNameServers:GetIPs"),
     (Code.parameterRequestList.toNat, "ParameterRequestList:OptionCodeList"),
     (Code.relayAgentInfo.toNat, "RelayAgentInfo:RelayOptions"),
     (Code.requestedIPAddress.toNat, "RequestedIPAddress:GetIP"),
-    (Code.rootPath.toNat, "RootPath:GetString"),
+    (Code.rootPath.toNat, "RootPath:GetString+TrimRight"),
     (Code.router.toNat, "Router:GetIPs"),
     (Code.serverIdentifier.toNat, "ServerIdentifier:GetIP"),
     (Code.subnetMask.toNat, "SubnetMask:IPMask"),
@@ -452,13 +452,14 @@ def ntpServers (o : GOpts) : Option (List IP) := getIPs Code.ntpServers o
 def netBIOSNameServers (o : GOpts) : Option (List IP) := getIPs Code.netBIOSNameServers o
 def dns (o : GOpts) : Option (List IP) := getIPs Code.dns o
 
-def domainName (o : GOpts) : Bytes := getString Code.domainName o
+def domainName (o : GOpts) : Bytes := trimRightNul (getString Code.domainName o)
 def hostName (o : GOpts) : Bytes := trimRightNul (getString Code.hostName o)
-def rootPath (o : GOpts) : Bytes := getString Code.rootPath o
+def rootPath (o : GOpts) : Bytes := trimRightNul (getString Code.rootPath o)
 def bootFileNameOption (o : GOpts) : Bytes := trimRightNul (getString Code.bootfileName o)
 def tftpServerName (o : GOpts) : Bytes := trimRightNul (getString Code.tftpServerName o)
+/-- option 60 is opaque octets, not NVT ASCII: returned as sent, NULs included -/
 def classIdentifier (o : GOpts) : Bytes := getString Code.classIdentifier o
-def message (o : GOpts) : Bytes := getString Code.message o
+def message (o : GOpts) : Bytes := trimRightNul (getString Code.message o)
 
 def ipAddressLeaseTime (o : GOpts) (dflt : Int) : Int := getDuration Code.ipAddressLeaseTime o dflt
 def ipAddressRenewalTime (o : GOpts) (dflt : Int) : Int := getDuration Code.renewalTime o dflt
